@@ -181,6 +181,8 @@ pub struct OracleStats {
     pub render_anchor_comparisons: u64,
     pub qr_unmodified_checks: u64,
     pub reissued_after_fault: u64,
+    #[serde(default)]
+    pub ondemand_pristine_comparisons: u64,
     pub probes: BTreeMap<String, u64>,
     pub distinct_states: u64,
 }
@@ -204,8 +206,19 @@ impl OracleStats {
         self.render_anchor_comparisons += o.render_anchor_comparisons;
         self.qr_unmodified_checks += o.qr_unmodified_checks;
         self.reissued_after_fault += o.reissued_after_fault;
+        self.ondemand_pristine_comparisons += o.ondemand_pristine_comparisons;
         self.distinct_states += o.distinct_states;
     }
+}
+
+/// Everything a fresh process needs to reproduce one model state from scratch: one build
+/// and, for render states, one render of its result. Setters are in *canonical* order
+/// (derived from the model, not from the history that led to the state).
+#[derive(Clone, Debug, Serialize, Deserialize)]
+pub struct OneSpec {
+    pub cfg: QrCfg,
+    /// ("svg" | "png" | "pixmap" | "term", canonical setter list)
+    pub render: Option<(String, Vec<RSetter>)>,
 }
 
 struct Seen {
@@ -213,6 +226,8 @@ struct Seen {
     origin: String,
     task: usize,
     before_fault: bool,
+    spec: Option<OneSpec>,
+    times: u32,
 }
 
 pub struct Oracle {
@@ -223,6 +238,8 @@ pub struct Oracle {
     /// shared builder -> number of builds of it currently in flight
     in_flight: Vec<u32>,
     faults_so_far: u64,
+    /// keys in the order they were first observed by a task (deterministic iteration)
+    first_seen_order: Vec<String>,
 }
 
 impl Oracle {
@@ -236,6 +253,8 @@ impl Oracle {
                     origin: "pristine".into(),
                     task: usize::MAX,
                     before_fault: true,
+                    spec: None,
+                    times: 0,
                 },
             );
         }
@@ -246,11 +265,17 @@ impl Oracle {
             outcome_hash: 0,
             in_flight: vec![0; n_shared_builders],
             faults_so_far: 0,
+            first_seen_order: Vec::new(),
         }
     }
 
     /// I1/I2: the same model state must always produce the same outcome.
     fn observe(&mut self, key: &str, outcome: &Outcome, task: usize, op_index: usize, op_kind: &str, is_render: bool) {
+        self.observe_spec(key, outcome, task, op_index, op_kind, is_render, None)
+    }
+
+    #[allow(clippy::too_many_arguments)]
+    fn observe_spec(&mut self, key: &str, outcome: &Outcome, task: usize, op_index: usize, op_kind: &str, is_render: bool, spec: Option<OneSpec>) {
         *self.stats.outcomes.entry(outcome.short().split('(').next().unwrap_or("?").to_string()).or_insert(0) += 1;
         self.outcome_hash = fold(self.outcome_hash, digest128(&[key.as_bytes(), format!("{:?}", outcome).as_bytes()])[0]);
         if outcome.is_died() {
@@ -260,7 +285,7 @@ impl Oracle {
         if *outcome == Outcome::Skipped {
             return;
         }
-        match self.table.get(key) {
+        match self.table.get_mut(key) {
             None => {
                 self.stats.distinct_states += 1;
                 self.table.insert(
@@ -274,10 +299,15 @@ impl Oracle {
                         },
                         task,
                         before_fault: self.faults_so_far == 0,
+                        spec,
+                        times: 1,
                     },
                 );
+                self.first_seen_order.push(key.to_string());
             }
             Some(seen) => {
+                seen.times += 1;
+                let seen = &*seen;
                 self.stats.comparisons += 1;
                 let pristine = seen.origin == "pristine";
                 if pristine {
@@ -333,6 +363,8 @@ impl Oracle {
 struct LocalQr {
     qr: Box<QRCode>,
     digest: String,
+    /// the configuration this QR code was built from (provenance, for on-demand pristine checks)
+    cfg: QrCfg,
 }
 
 struct Local {
@@ -344,7 +376,7 @@ struct Local {
 
 struct Shared {
     builders: Vec<(QRBuilder, QrCfg)>,
-    qrs: Vec<Option<(Box<QRCode>, String)>>,
+    qrs: Vec<Option<(Box<QRCode>, String, QrCfg)>>,
 }
 
 #[derive(Clone, Debug, Serialize, Deserialize)]
@@ -409,7 +441,7 @@ pub fn run_episode(ep: &Episode, pristine: &Pristine) -> EpisodeResult {
         };
         oracle.lock().unwrap().observe(&model.key(), &outcome, usize::MAX - 1, i, "SetupBuild", false);
         let qr = match (qr, &outcome) {
-            (Some(q), Outcome::Ok(d)) => Some((Box::new(q), d.clone())),
+            (Some(q), Outcome::Ok(d)) => Some((Box::new(q), d.clone(), model.clone())),
             _ => None,
         };
         shared.qrs.push(qr);
@@ -472,7 +504,7 @@ pub fn run_episode(ep: &Episode, pristine: &Pristine) -> EpisodeResult {
     {
         let mut o = oracle.lock().unwrap();
         for (i, q) in shared.qrs.iter().enumerate() {
-            if let Some((qr, d)) = q {
+            if let Some((qr, d, _)) = q {
                 o.stats.qr_unmodified_checks += 1;
                 let now = hex128(qr_digest(qr));
                 if now != *d {
@@ -483,6 +515,71 @@ pub fn run_episode(ep: &Episode, pristine: &Pristine) -> EpisodeResult {
                         i,
                         format!("shared QR code {} changed during the episode: {} -> {}", i, d, now),
                     );
+                }
+            }
+        }
+    }
+
+    // --- on-demand pristine checks (I2 for arbitrary states) ---------------------
+    // A few states of this episode - preferably ones observed only once, which I1 cannot
+    // check - are re-evaluated from scratch, each in its own fresh process that does exactly
+    // that one build (and render), with setters in canonical order.
+    let n_ondemand = ONDEMAND.load(std::sync::atomic::Ordering::Relaxed);
+    if n_ondemand > 0 && oracle.lock().unwrap().violation.is_none() {
+        let picks: Vec<(String, OneSpec, Outcome, String)> = {
+            let o = oracle.lock().unwrap();
+            let mut once: Vec<&String> = Vec::new();
+            let mut many: Vec<&String> = Vec::new();
+            for k in &o.first_seen_order {
+                if let Some(seen) = o.table.get(k) {
+                    if seen.spec.is_some() {
+                        if seen.times <= 1 {
+                            once.push(k);
+                        } else {
+                            many.push(k);
+                        }
+                    }
+                }
+            }
+            let mut rng = crate::rng::Rng::new(ep.seed ^ 0x0D_E3A5D);
+            let mut picks = Vec::new();
+            for _ in 0..n_ondemand {
+                let pool = if !once.is_empty() && (many.is_empty() || rng.chance(3, 4)) { &mut once } else { &mut many };
+                if pool.is_empty() {
+                    break;
+                }
+                let k = pool.swap_remove(rng.usize_below(pool.len()));
+                let seen = &o.table[k];
+                picks.push((k.clone(), seen.spec.clone().unwrap(), seen.outcome.clone(), seen.origin.clone()));
+            }
+            picks
+        };
+        for (key, spec, in_run, origin) in picks {
+            match evaluate_in_fresh_process(&spec) {
+                Ok(fresh) => {
+                    let mut o = oracle.lock().unwrap();
+                    o.stats.ondemand_pristine_comparisons += 1;
+                    o.outcome_hash = fold(o.outcome_hash, digest128(&[key.as_bytes(), format!("{:?}", fresh).as_bytes()])[0]);
+                    if fresh != in_run {
+                        let kind = spec.render.as_ref().map(|(k, _)| format!("Render:{}", k)).unwrap_or_else(|| "Build".into());
+                        o.violate(
+                            "I2_pristine_ondemand",
+                            &kind,
+                            usize::MAX - 1,
+                            0,
+                            format!(
+                                "state {} gave {} at {} but {} in a fresh process that did only this (canonical setter order)",
+                                key,
+                                in_run.short(),
+                                origin,
+                                fresh.short()
+                            ),
+                        );
+                    }
+                }
+                Err(e) => {
+                    eprintln!("harness error: on-demand pristine process failed: {}", e);
+                    std::process::exit(2);
                 }
             }
         }
@@ -503,6 +600,43 @@ pub fn run_episode(ep: &Episode, pristine: &Pristine) -> EpisodeResult {
         policy: ep.sched.policy.name().to_string(),
         hung: false,
     }
+}
+
+/// How many on-demand pristine checks follow every episode (set once per process).
+pub static ONDEMAND: std::sync::atomic::AtomicU32 = std::sync::atomic::AtomicU32::new(1);
+
+fn evaluate_in_fresh_process(spec: &OneSpec) -> Result<Outcome, String> {
+    let exe = std::env::current_exe().map_err(|e| e.to_string())?;
+    let arg = serde_json::to_string(spec).map_err(|e| e.to_string())?;
+    let out = std::process::Command::new(exe)
+        .arg("c14-one")
+        .arg(arg)
+        .stdin(std::process::Stdio::null())
+        .output()
+        .map_err(|e| e.to_string())?;
+    if !out.status.success() {
+        return Err(format!("c14-one exited with {:?}: {}", out.status, String::from_utf8_lossy(&out.stderr)));
+    }
+    let text = String::from_utf8_lossy(&out.stdout);
+    let line = text.lines().rev().find(|l| l.starts_with('{')).ok_or("c14-one printed nothing")?;
+    let v: serde_json::Value = serde_json::from_str(line).map_err(|e| e.to_string())?;
+    serde_json::from_value(v["outcome"].clone()).map_err(|e| e.to_string())
+}
+
+/// `fqsim c14-one <OneSpec json>`: the fresh process of an on-demand pristine check.
+pub fn one_main(args: &[String]) -> i32 {
+    crate::quiet_panics();
+    let Some(a) = args.first() else { return 2 };
+    let spec: OneSpec = match serde_json::from_str(a) {
+        Ok(s) => s,
+        Err(e) => {
+            eprintln!("bad spec: {}", e);
+            return 2;
+        }
+    };
+    let outcome = evaluate_one(&spec);
+    println!("{}", serde_json::json!({"outcome": outcome}));
+    0
 }
 
 fn task_body(sim: &Arc<Sim>, oracle: &Arc<Mutex<Oracle>>, shared: &Arc<Shared>, ep: &Episode, id: usize) {
@@ -528,16 +662,31 @@ fn task_body(sim: &Arc<Sim>, oracle: &Arc<Mutex<Oracle>>, shared: &Arc<Shared>, 
     }
 }
 
-fn resolve_qr<'a>(r: QrRef, local: &'a Local, shared: &'a Shared) -> Option<(&'a QRCode, &'a str, String)> {
+struct QrView<'a> {
+    qr: &'a QRCode,
+    digest: &'a str,
+    origin: String,
+    cfg: &'a QrCfg,
+}
+
+fn resolve_qr<'a>(r: QrRef, local: &'a Local, shared: &'a Shared) -> Option<QrView<'a>> {
     match r {
-        QrRef::Local(s) => local.qrs[(s as usize) % N_QR_SLOTS].as_ref().map(|q| (&*q.qr, q.digest.as_str(), format!("local {}", s))),
+        QrRef::Local(s) => local.qrs[(s as usize) % N_QR_SLOTS].as_ref().map(|q| QrView {
+            qr: &q.qr,
+            digest: q.digest.as_str(),
+            origin: format!("local {}", s),
+            cfg: &q.cfg,
+        }),
         QrRef::Shared(s) => {
             if shared.qrs.is_empty() {
                 return None;
             }
-            shared.qrs[(s as usize) % shared.qrs.len()]
-                .as_ref()
-                .map(|(q, d)| (&**q, d.as_str(), format!("shared {}", s)))
+            shared.qrs[(s as usize) % shared.qrs.len()].as_ref().map(|(q, d, c)| QrView {
+                qr: q,
+                digest: d.as_str(),
+                origin: format!("shared {}", s),
+                cfg: c,
+            })
         }
     }
 }
@@ -588,11 +737,11 @@ fn exec_op(
             let Some((b, m)) = local.builders[(*slot as usize) % N_BUILDER_SLOTS].as_ref() else {
                 return false;
             };
-            let key = m.key();
+            let cfg = m.clone();
             sched::op_begin(sim, id, crash);
             let r = catch_unwind(AssertUnwindSafe(|| b.build()));
             sched::op_end(sim, id);
-            finish_build(oracle, r, &key, id, op_index, kind, local, *out)
+            finish_build(oracle, r, &cfg, id, op_index, kind, local, *out)
         }
         Op::BuildShared { shared: sidx, out } => {
             if shared.builders.is_empty() {
@@ -600,7 +749,7 @@ fn exec_op(
             }
             let si = (*sidx as usize) % shared.builders.len();
             let (b, m) = &shared.builders[si];
-            let key = m.key();
+            let cfg = m.clone();
             {
                 let mut o = oracle.lock().unwrap();
                 o.in_flight[si] += 1;
@@ -612,7 +761,7 @@ fn exec_op(
             let r = catch_unwind(AssertUnwindSafe(|| b.build()));
             sched::op_end(sim, id);
             oracle.lock().unwrap().in_flight[si] -= 1;
-            finish_build(oracle, r, &key, id, op_index, kind, local, *out)
+            finish_build(oracle, r, &cfg, id, op_index, kind, local, *out)
         }
         Op::BuildFresh { input, mode, ecl, version, mask, out } => {
             let cfg = QrCfg {
@@ -622,18 +771,17 @@ fn exec_op(
                 version: version.map(|v| v.clamp(1, 40)),
                 mask: mask.map(|v| v % 8),
             };
-            let key = cfg.key();
             let b = cfg.fresh_builder();
             sched::op_begin(sim, id, crash);
             let r = catch_unwind(AssertUnwindSafe(|| b.build()));
             sched::op_end(sim, id);
-            finish_build(oracle, r, &key, id, op_index, kind, local, *out)
+            finish_build(oracle, r, &cfg, id, op_index, kind, local, *out)
         }
         Op::CloneQr { from, to } => {
             let f = (*from as usize) % N_QR_SLOTS;
             let t = (*to as usize) % N_QR_SLOTS;
             if let Some(q) = local.qrs[f].as_ref() {
-                let c = LocalQr { qr: Box::new((*q.qr).clone()), digest: q.digest.clone() };
+                let c = LocalQr { qr: Box::new((*q.qr).clone()), digest: q.digest.clone(), cfg: q.cfg.clone() };
                 let d = hex128(qr_digest(&c.qr));
                 if d != c.digest {
                     oracle.lock().unwrap().violate(
@@ -674,68 +822,102 @@ fn exec_op(
             let Some((b, m)) = local.svgs[(*slot as usize) % N_RENDER_SLOTS].as_ref() else {
                 return false;
             };
-            let Some((q, d0, origin)) = resolve_qr(*qr, local, shared) else {
+            let Some(v) = resolve_qr(*qr, local, shared) else {
                 return false;
             };
-            let key = format!("R|svg|{}|{}", m.key(), d0);
+            let key = format!("R|svg|{}|{}", m.key(), v.digest);
+            // a panicking callback is a harness-side fault, not part of the model: no pristine spec then
+            let spec = if m.has_panicky_shape() { None } else { Some(OneSpec { cfg: v.cfg.clone(), render: Some(("svg".into(), m.canonical_setters())) }) };
             CB_CALLS.with(|c| c.set(0));
             CB_PANIC_AT.with(|c| c.set(cb_panic_at));
             sched::op_begin(sim, id, crash);
-            let r = catch_unwind(AssertUnwindSafe(|| b.to_str(q)));
+            let outcome = render_svg_outcome(b, v.qr);
             sched::op_end(sim, id);
             CB_PANIC_AT.with(|c| c.set(None));
-            let outcome = match r {
-                Ok(s) => bytes_outcome(s.as_bytes()),
-                Err(p) => classify_panic(p),
-            };
-            finish_render(oracle, &key, outcome, q, d0, &origin, id, op_index, kind)
+            finish_render(oracle, &key, outcome, &v, id, op_index, kind, spec)
         }
         Op::ImgRender { slot, qr, pixmap } => {
             let Some((b, m)) = local.imgs[(*slot as usize) % N_RENDER_SLOTS].as_ref() else {
                 return false;
             };
-            let Some((q, d0, origin)) = resolve_qr(*qr, local, shared) else {
+            let Some(v) = resolve_qr(*qr, local, shared) else {
                 return false;
             };
-            if q.size > MAX_RASTER_QR_SIZE {
+            if v.qr.size > MAX_RASTER_QR_SIZE {
                 oracle.lock().unwrap().stats.probe("raster_skipped_large_symbol");
                 return false;
             }
-            let key = format!("R|{}|{}|{}", if *pixmap { "pixmap" } else { "png" }, m.key(), d0);
+            let rk = if *pixmap { "pixmap" } else { "png" };
+            let key = format!("R|{}|{}|{}", rk, m.key(), v.digest);
+            let spec = Some(OneSpec { cfg: v.cfg.clone(), render: Some((rk.into(), m.canonical_setters())) });
             sched::op_begin(sim, id, crash);
-            let r = catch_unwind(AssertUnwindSafe(|| {
-                if *pixmap {
-                    let p = b.to_pixmap(q);
-                    let dims = [p.width().to_le_bytes(), p.height().to_le_bytes()].concat();
-                    Outcome::Ok(format!("{}:{}x{}", hex128(digest128(&[p.data(), &dims])), p.width(), p.height()))
-                } else {
-                    match b.to_bytes(q) {
-                        Ok(bytes) => bytes_outcome(&bytes),
-                        Err(e) => Outcome::Err(format!("{:?}", e)),
-                    }
-                }
-            }));
+            let outcome = render_img_outcome(b, v.qr, *pixmap);
             sched::op_end(sim, id);
-            let outcome = match r {
-                Ok(o) => o,
-                Err(p) => classify_panic(p),
-            };
-            finish_render(oracle, &key, outcome, q, d0, &origin, id, op_index, kind)
+            finish_render(oracle, &key, outcome, &v, id, op_index, kind, spec)
         }
         Op::Term { qr } => {
-            let Some((q, d0, origin)) = resolve_qr(*qr, local, shared) else {
+            let Some(v) = resolve_qr(*qr, local, shared) else {
                 return false;
             };
-            let key = format!("R|term|{}", d0);
+            let key = format!("R|term|{}", v.digest);
+            let spec = Some(OneSpec { cfg: v.cfg.clone(), render: Some(("term".into(), vec![])) });
             sched::op_begin(sim, id, crash);
-            let r = catch_unwind(AssertUnwindSafe(|| q.to_str()));
+            let outcome = render_term_outcome(v.qr);
             sched::op_end(sim, id);
-            let outcome = match r {
-                Ok(s) => bytes_outcome(s.as_bytes()),
-                Err(p) => classify_panic(p),
-            };
-            finish_render(oracle, &key, outcome, q, d0, &origin, id, op_index, kind)
+            finish_render(oracle, &key, outcome, &v, id, op_index, kind, spec)
         }
+    }
+}
+
+pub fn render_svg_outcome(b: &SvgBuilder, q: &QRCode) -> Outcome {
+    match catch_unwind(AssertUnwindSafe(|| b.to_str(q))) {
+        Ok(s) => bytes_outcome(s.as_bytes()),
+        Err(p) => classify_panic(p),
+    }
+}
+
+pub fn render_img_outcome(b: &ImageBuilder, q: &QRCode, pixmap: bool) -> Outcome {
+    let r = catch_unwind(AssertUnwindSafe(|| {
+        if pixmap {
+            let p = b.to_pixmap(q);
+            let dims = [p.width().to_le_bytes(), p.height().to_le_bytes()].concat();
+            Outcome::Ok(format!("{}:{}x{}", hex128(digest128(&[p.data(), &dims])), p.width(), p.height()))
+        } else {
+            match b.to_bytes(q) {
+                Ok(bytes) => bytes_outcome(&bytes),
+                Err(e) => Outcome::Err(format!("{:?}", e)),
+            }
+        }
+    }));
+    match r {
+        Ok(o) => o,
+        Err(p) => classify_panic(p),
+    }
+}
+
+pub fn render_term_outcome(q: &QRCode) -> Outcome {
+    match catch_unwind(AssertUnwindSafe(|| q.to_str())) {
+        Ok(s) => bytes_outcome(s.as_bytes()),
+        Err(p) => classify_panic(p),
+    }
+}
+
+/// What `fqsim c14-one` does in a fresh process: exactly one build from a fresh builder
+/// (setters in canonical order) and, for a render state, exactly one render of the result.
+pub fn evaluate_one(spec: &OneSpec) -> Outcome {
+    let b = spec.cfg.fresh_builder();
+    let r = catch_unwind(AssertUnwindSafe(|| b.build()));
+    let (outcome, qr) = match r {
+        Ok(res) => (build_outcome(&res), res.ok()),
+        Err(p) => (classify_panic(p), None),
+    };
+    let Some((kind, setters)) = &spec.render else { return outcome };
+    let Some(qr) = qr else { return Outcome::Skipped };
+    match kind.as_str() {
+        "svg" => render_svg_outcome(&svg_builder_from(setters), &qr),
+        "png" => render_img_outcome(&img_builder_from(setters), &qr, false),
+        "pixmap" => render_img_outcome(&img_builder_from(setters), &qr, true),
+        _ => render_term_outcome(&qr),
     }
 }
 
@@ -743,13 +925,15 @@ fn exec_op(
 fn finish_build(
     oracle: &Arc<Mutex<Oracle>>,
     r: std::thread::Result<Result<QRCode, fast_qr::qr::QRCodeError>>,
-    key: &str,
+    cfg: &QrCfg,
     id: usize,
     op_index: usize,
     kind: &str,
     local: &mut Local,
     out: u8,
 ) -> bool {
+    let key = cfg.key();
+    let key = key.as_str();
     let (outcome, qr) = match r {
         Ok(res) => {
             let o = build_outcome(&res);
@@ -760,7 +944,7 @@ fn finish_build(
     let died = outcome.is_died();
     {
         let mut o = oracle.lock().unwrap();
-        o.observe(key, &outcome, id, op_index, kind, false);
+        o.observe_spec(key, &outcome, id, op_index, kind, false, Some(OneSpec { cfg: cfg.clone(), render: None }));
         match &outcome {
             Outcome::ErrEncodedData => o.stats.probe("err_encoded_data"),
             Outcome::ErrSpecifiedVersion => o.stats.probe("err_specified_version"),
@@ -774,7 +958,7 @@ fn finish_build(
         }
     }
     if let (Some(q), Outcome::Ok(d)) = (qr, &outcome) {
-        local.qrs[(out as usize) % N_QR_SLOTS] = Some(LocalQr { qr: Box::new(q), digest: d.clone() });
+        local.qrs[(out as usize) % N_QR_SLOTS] = Some(LocalQr { qr: Box::new(q), digest: d.clone(), cfg: cfg.clone() });
     }
     died
 }
@@ -784,25 +968,24 @@ fn finish_render(
     oracle: &Arc<Mutex<Oracle>>,
     key: &str,
     outcome: Outcome,
-    q: &QRCode,
-    d0: &str,
-    origin: &str,
+    v: &QrView<'_>,
     id: usize,
     op_index: usize,
     kind: &str,
+    spec: Option<OneSpec>,
 ) -> bool {
     let died = outcome.is_died();
-    let now = hex128(qr_digest(q));
+    let now = hex128(qr_digest(v.qr));
     let mut o = oracle.lock().unwrap();
-    o.observe(key, &outcome, id, op_index, kind, true);
+    o.observe_spec(key, &outcome, id, op_index, kind, true, spec);
     o.stats.qr_unmodified_checks += 1;
-    if now != d0 {
+    if now != v.digest {
         o.violate(
             "I3_render_modified_qr",
             kind,
             id,
             op_index,
-            format!("QR code ({}) changed across a render: {} -> {}", origin, d0, now),
+            format!("QR code ({}) changed across a render: {} -> {}", v.origin, v.digest, now),
         );
     }
     died
